@@ -1,5 +1,70 @@
-From FJ Require Import Lib.Base Lib.Bytes Spec.ImageSpec Model.Fjm Proofs.FjmProps.
+From FJ Require Import Lib.Base Lib.Bytes Spec.ImageSpec Model.Fjm Proofs.FjmCodec Proofs.FjmReader Proofs.FjmWriter Proofs.FjmProps Proofs.FjmTorn.
+(* C10 - reading an .fjm is total, and damaged or torn files are rejected.  Statements only.
+   read_thr thr decompress b models Reader.__init__ on the byte string b; its result is an image (ROk), the
+   library's read error (RErr k) or any other exception (RRaw e: KeyError, IndexError, or the model's own fuel). *)
 Local Open Scope N_scope.
-Theorem C10_u64_codec : forall v, v < 2 ^ 64 -> le_dec (u64_enc v) = v.
-Proof. exact u64_roundtrip. Qed.
-Print Assumptions C10_u64_codec.
+
+(* Total: for every byte string, every threshold and every behaviour of the LZMA decoder, opening the file ends
+   with an image or the read error - never with another exception. *)
+Theorem C10_total :
+  forall (thr : N) (decompress : bytes -> option bytes) (b : bytes) (e : rexn),
+    read_thr thr decompress b <> RRaw e.
+Proof. exact read_total. Qed.
+Print Assumptions C10_total.
+
+(* Consistent: an accepted file has a supported width and version and a consistent segment table - every segment
+   non-empty, 2w-aligned, ending below 2^64, holding its (even-length) data, the data range inside the pool, the
+   segments pairwise disjoint; the loaded segments are the table's. *)
+Theorem C10_consistent :
+  forall (thr : N) (decompress : bytes -> option bytes) (b : bytes) (img : image),
+    read_thr thr decompress b = ROk img ->
+    consistent_table (i_pool_len img) (i_table img) = true /\
+    supported_width (i_w img) = true /\ i_ver img <= 3 /\ i_segs img = map seg_of (i_table img).
+Proof. exact read_consistent. Qed.
+Print Assumptions C10_consistent.
+
+(* Torn: every strict prefix of a file produced by the writer (any accepted call sequence, any width / version)
+   is rejected with the read error, or still loads exactly the same Reader state (this happens only when the cut
+   removes whole pool words that no segment references).  Premise on liblzma: a strict prefix of a raw LZMA2
+   stream produced by the compressor does not decode. *)
+Theorem C10_torn :
+  forall (compress : bytes -> option bytes) (decompress : bytes -> option bytes),
+    (forall x z k, compress x = Some z -> (k < length z)%nat -> decompress (firstn k z) = None) ->
+  forall c thr ops res st file img k,
+    cfg_valid c = true ->
+    exec c ops ws_empty = (res, Some st) -> fits_u64 st = true ->
+    write compress c st = WOk file ->
+    read_thr thr decompress file = ROk img ->
+    (k < length file)%nat ->
+    (exists e, read_thr thr decompress (firstn k file) = RErr e) \/
+    (exists img', read_thr thr decompress (firstn k file) = ROk img' /\ same_loaded img' img).
+Proof. intros compress decompress H c thr ops res st file img k V. exact (torn compress decompress H c V thr ops res st file img k). Qed.
+Print Assumptions C10_torn.
+
+(* Non-vacuity: a version-1 file whose pool has two unreferenced trailing words.  Cutting exactly those two words
+   (4 bytes) still loads the same segments and words; cutting one byte more, or into the table, or into the
+   header, is rejected; a corrupted magic is rejected (closed boolean computation, identity codec). *)
+Example C10_examples :
+  let c := mkcfg 16 1 0 0 in
+  let ops := [AddData [1; 2; 3; 4; 5; 6]%Z; AddSeg 0 6 0 4] in
+  let rejected r := match r with RErr _ => true | _ => false end in
+  match exec c ops ws_empty with
+  | (_, Some st) =>
+    match write Some c st with
+    | WOk file =>
+      let n := length file in
+      match read Some file, read Some (firstn (n - 4) file) with
+      | ROk img, ROk img' =>
+        pairs_eqb (i_segs img) [(0, 6)] && pairs_eqb (i_segs img') [(0, 6)] &&
+        mem_eqb (i_mem img') [(0, 1); (1, 2); (2, 3); (3, 4); (4, 0); (5, 0)] &&
+        mem_eqb (i_mem img) [(0, 1); (1, 2); (2, 3); (3, 4); (4, 0); (5, 0)] &&
+        rejected (read Some (firstn (n - 5) file)) && rejected (read Some (firstn (n - 6) file)) &&
+        rejected (read Some (firstn 40 file)) && rejected (read Some (firstn 19 file)) &&
+        rejected (read Some (firstn 0 file)) && rejected (read Some (patch file 0 [0]))
+      | _, _ => false
+      end
+    | _ => false
+    end
+  | _ => false
+  end = true.
+Proof. vm_compute. reflexivity. Qed.
